@@ -12,6 +12,7 @@ import (
 	"strings"
 	"sync"
 	"testing"
+	"testing/synctest"
 	"time"
 
 	"github.com/tikv/client-go/v2/oracle"
@@ -228,6 +229,11 @@ func (Engine) Execute(t *testing.T, cfg simkit.RunConfig, scenario any) *simkit.
 	tso := w.TSO.Snapshot()
 	w.close()
 	simkit.Settle()
+	// background goroutines of the closed stores (clean-up after a failed commit, asynchronous rollbacks) retry against
+	// the shut-down network until their back-off budgets are spent: let that time pass, so that the bubble ends empty
+	// and the run is judged instead of being counted as a bubble leak
+	time.Sleep(150 * time.Second)
+	synctest.Wait()
 	res.Aborted = s.Aborted
 	res.Events = s.Events
 	res.SimTime = s.Now()
